@@ -224,7 +224,9 @@ pub fn run(rep: &mut Report) {
         st.inc("cases");
         let n = spec.verts.len();
         // every numbering for <= 5 vertices; beyond that boundaries-first, boundaries-last, reversed and a stride of the rest
-        let perms = if n <= 5 { permutations(n, usize::MAX) } else { permutations(n, 5040).into_iter().step_by(7).collect() };
+        // (thorough P(4,2): the 720 numberings of the six-vertex diagrams are strided by 61 - twelve of them; with stride
+        // 7 the tier did not finish in 90 minutes)
+        let perms = if n <= 5 { permutations(n, usize::MAX) } else { permutations(n, 5040).into_iter().step_by(if quick { 7 } else { 61 }).collect() };
         for p in perms {
             judge(st, spec, &p);
         }
